@@ -108,6 +108,9 @@ pub struct Obs {
     #[serde(skip_serializing_if = "Option::is_none")]
     pub bank_err: Option<Vec<Value>>,
     pub stopped_by_observer: bool,
+    /// the parser's names of the anonymous scopes of the entry file (braces, loops, imports), in post-order
+    #[serde(skip_serializing_if = "Option::is_none")]
+    pub scopes: Option<Vec<String>>,
     pub npasses: usize,
 }
 
@@ -205,6 +208,40 @@ pub fn srcmap_json(ctx: &CodegenContext) -> Vec<Value> {
 }
 
 /// Assemble one case in-process and record everything asked for.
+/// Names the parser gave to the anonymous scopes, children before their parent (renderer glue: lets the driver name the
+/// scopes of its own AST without guessing from the symbol table).
+pub fn scope_ids(tokens: &[mos_core::parser::Token], out: &mut Vec<String>) {
+    use mos_core::parser::Token;
+    for t in tokens {
+        match t {
+            Token::Label { block: Some(b), .. } => scope_ids(&b.inner, out),
+            Token::Braces { block, scope } => {
+                scope_ids(&block.inner, out);
+                out.push(scope.to_string());
+            }
+            Token::Loop { block, loop_scope, .. } => {
+                scope_ids(&block.inner, out);
+                out.push(loop_scope.to_string());
+            }
+            Token::Segment { block: Some(b), .. } => scope_ids(&b.inner, out),
+            Token::If { if_, else_, .. } => {
+                scope_ids(&if_.inner, out);
+                if let Some(e) = else_ {
+                    scope_ids(&e.inner, out);
+                }
+            }
+            Token::MacroDefinition { block, .. } => scope_ids(&block.inner, out),
+            Token::Import { block, import_scope, .. } => {
+                if let Some(b) = block {
+                    scope_ids(&b.inner, out);
+                }
+                out.push(import_scope.to_string());
+            }
+            _ => {}
+        }
+    }
+}
+
 pub fn run_case(case: &Case) -> Obs {
     let mut obs = Obs {
         id: case.id.clone(),
@@ -227,6 +264,11 @@ pub fn run_case(case: &Case) -> Obs {
         return obs;
     }
     let tree = tree.unwrap();
+    {
+        let mut ids = vec![];
+        scope_ids(&tree.main_file().tokens, &mut ids);
+        obs.scopes = Some(ids);
+    }
     obs.stage = "codegen".into();
 
     let passes: std::rc::Rc<RefCell<Vec<Value>>> = Default::default();
